@@ -51,4 +51,12 @@ func init() {
 	// C11.closed
 	add("c11-closed-parsed-wrapper", "C11.closed", "pkg/interp/repl.jq", ", output_query: _query_func(\"_repl_display\")", ", output_query: (\". as $x | _repl_display\" | _query_fromstring)", "output_query")
 	add("c11-closed-key-typo", "C11.closed", ejq, "elif $opts.output_query then", "elif $opts.output_qeury then", "optkey:read:output_qeury")
+
+	// C11.inputs
+	const ijq = "pkg/interp/init.jq"
+	add("c11-inputs-repl-drop-arm", "C11.inputs", ijq, "              elif $opts.string_input then inputs\n              elif $opts.slurp then [inputs]\n", "              elif $opts.slurp then [inputs]\n", "agree:_main:call1~call2:$opts.null_input=0,$opts.slurp=1,$opts.string_input=1")
+	add("c11-inputs-query-arm-order", "C11.inputs", ijq, "elif $opts.string_input then _query_func(\"inputs\")\n                    elif $opts.slurp then _query_func(\"inputs\") | _query_array\n", "elif $opts.slurp then _query_func(\"inputs\") | _query_array\n                    elif $opts.string_input then _query_func(\"inputs\")\n", "agree:_main:call1~call2:$opts.null_input=0,$opts.slurp=1,$opts.string_input=1")
+	add("c11-inputs-null-after-slurp", "C11.inputs", ijq, "              if $opts.null_input then null\n              elif $opts.string_input then inputs\n              elif $opts.slurp then [inputs]\n", "              if $opts.string_input then inputs\n              elif $opts.slurp then [inputs]\n              elif $opts.null_input then null\n", "agree:_main:call1~call2:$opts.null_input=1,$opts.slurp=1,$opts.string_input=0")
+	add("c11-inputs-drop-map", "C11.inputs", ijq, "| map(_cli_eval($opts.expr; $eval_opts))", "| _cli_eval($opts.expr; $eval_opts)", "agree:_main:call1~call2:$opts.null_input=0,$opts.slurp=0,$opts.string_input=0")
+	add("c11-inputs-other-expr", "C11.inputs", ijq, "| map(_cli_eval($opts.expr; $eval_opts))", "| map(_cli_eval($opts.expr_file; $eval_opts))", "expr:_main:call1~call2")
 }
